@@ -7,7 +7,6 @@ use crate::decoder::{self, Clause};
 use crate::engine_a::*;
 use crate::props_a::*;
 use crate::subject::*;
-use crate::util::J;
 
 /// split `p` (a multiple of 8, p != 8) into slot classes below 128
 fn decompose(mut p: u64) -> Vec<u64> {
